@@ -1,0 +1,129 @@
+//go:build verif
+
+// Contracts for the deductive verifier in /verif (govc). Comment-only.
+
+package page
+
+//@ # ---- byte-level view of a mapped page ---------------------------------------------------
+//@ pure get32(m map[int]byte, o int) uint32 = uint32(m[o]) | uint32(m[o+1]) << 8 | uint32(m[o+2]) << 16 | uint32(m[o+3]) << 24
+//@ pure get64(m map[int]byte, o int) uint64 = uint64(get32(m, o)) | uint64(get32(m, o+4)) << 32
+//@ pure put32(m map[int]byte, o int, v uint32) map[int]byte = store(store(store(store(m, o, uint8(v)), o+1, uint8(v >> 8)), o+2, uint8(v >> 16)), o+3, uint8(v >> 24))
+//@ pure put64(m map[int]byte, o int, v uint64) map[int]byte = put32(put32(m, o, uint32(v)), o+4, uint32(v >> 32))
+//@ lemma get_put64 bv prop C05 C06: all(m, "map[int]byte", all(o, "int", all(v, "uint64", get64(put64(m, o, v), o) == v)))
+//@ lemma get_put32 bv prop C05 C06: all(m, "map[int]byte", all(o, "int", all(v, "uint32", get32(put32(m, o, v), o) == v)))
+
+//@ # The only production implementation of MappedPage is *mappedPage (cast is trusted).
+//@ predicate pbytes(p MappedPage) map[int]byte = contents(cast(p, "*mappedPage").mappedBytes)
+//@ predicate psize(p MappedPage) int = len(cast(p, "*mappedPage").mappedBytes)
+//@ predicate pageOK(p MappedPage) bool = p != nil && typeis(p, "*mappedPage") && offset(cast(p, "*mappedPage").mappedBytes) == 0 && owns(p, cast(p, "*mappedPage").mappedBytes) && len(cast(p, "*mappedPage").mappedBytes) >= 0
+
+//@ func MappedPage.PutUint64
+//@   requires pageOK(self) && offset >= 0 && offset <= psize(self) - 8 && psize(self) >= 8
+//@   modifies cast(self, "*mappedPage").mappedBytes[*]
+//@   ensures pbytes(self) == put64(old(pbytes(self)), offset, value)
+//@ end
+//@ func MappedPage.ReadUint64
+//@   requires pageOK(self) && offset >= 0 && offset <= psize(self) - 8 && psize(self) >= 8
+//@   ensures result == get64(pbytes(self), offset)
+//@ end
+//@ func MappedPage.PutUint32
+//@   requires pageOK(self) && offset >= 0 && offset <= psize(self) - 4 && psize(self) >= 4
+//@   modifies cast(self, "*mappedPage").mappedBytes[*]
+//@   ensures pbytes(self) == put32(old(pbytes(self)), offset, value)
+//@ end
+//@ func MappedPage.ReadUint32
+//@   requires pageOK(self) && offset >= 0 && offset <= psize(self) - 4 && psize(self) >= 4
+//@   ensures result == get32(pbytes(self), offset)
+//@ end
+//@ func MappedPage.Sync
+//@ end
+
+//@ func mappedPage.PutUint64
+//@   prop C05 C06
+//@   requires pageOK(mp) && offset >= 0 && offset <= len(mp.mappedBytes) - 8 && len(mp.mappedBytes) >= 8
+//@   modifies mp.mappedBytes[*]
+//@   ensures contents(mp.mappedBytes) == put64(old(contents(mp.mappedBytes)), offset, value)
+//@ end
+//@ func mappedPage.ReadUint64
+//@   prop C05 C06
+//@   requires pageOK(mp) && offset >= 0 && offset <= len(mp.mappedBytes) - 8 && len(mp.mappedBytes) >= 8
+//@   ensures result == get64(contents(mp.mappedBytes), offset)
+//@ end
+//@ func mappedPage.PutUint32
+//@   prop C05 C06
+//@   requires pageOK(mp) && offset >= 0 && offset <= len(mp.mappedBytes) - 4 && len(mp.mappedBytes) >= 4
+//@   modifies mp.mappedBytes[*]
+//@   ensures contents(mp.mappedBytes) == put32(old(contents(mp.mappedBytes)), offset, value)
+//@ end
+//@ func mappedPage.ReadUint32
+//@   prop C05 C06
+//@   requires pageOK(mp) && offset >= 0 && offset <= len(mp.mappedBytes) - 4 && len(mp.mappedBytes) >= 4
+//@   ensures result == get32(contents(mp.mappedBytes), offset)
+//@ end
+
+//@ # disjoint accesses commute (used with the byte functions kept opaque)
+//@ pure okOff(o int) bool = o >= 0 && o <= 1073741824
+//@ lemma get64_put64_other bv prop C05 C06: all(m, "map[int]byte", all(o, "int", all(p, "int", all(v, "uint64", (okOff(o) && okOff(p) && (p + 8 <= o || o + 8 <= p)) ==> get64(put64(m, o, v), p) == get64(m, p)))))
+//@ lemma get64_put32_other bv prop C05 C06: all(m, "map[int]byte", all(o, "int", all(p, "int", all(v, "uint32", (okOff(o) && okOff(p) && (p + 8 <= o || o + 4 <= p)) ==> get64(put32(m, o, v), p) == get64(m, p)))))
+//@ lemma get32_put64_other bv prop C05 C06: all(m, "map[int]byte", all(o, "int", all(p, "int", all(v, "uint64", (okOff(o) && okOff(p) && (p + 4 <= o || o + 8 <= p)) ==> get32(put64(m, o, v), p) == get32(m, p)))))
+//@ lemma get32_put32_other bv prop C05 C06: all(m, "map[int]byte", all(o, "int", all(p, "int", all(v, "uint32", (okOff(o) && okOff(p) && (p + 4 <= o || o + 4 <= p)) ==> get32(put32(m, o, v), p) == get32(m, p)))))
+//@ lemma byte_put64_other bv prop C05 C06: all(m, "map[int]byte", all(o, "int", all(p, "int", all(v, "uint64", (okOff(o) && okOff(p) && (p < o || o + 8 <= p)) ==> put64(m, o, v)[p] == m[p]))))
+//@ lemma byte_put32_other bv prop C05 C06: all(m, "map[int]byte", all(o, "int", all(p, "int", all(v, "uint32", (okOff(o) && okOff(p) && (p < o || o + 4 <= p)) ==> put32(m, o, v)[p] == m[p]))))
+
+//@ func MappedPage.WriteBytes
+//@   requires pageOK(self) && offset >= 0 && offset <= psize(self) - len(data)
+//@   modifies cast(self, "*mappedPage").mappedBytes[*]
+//@   ensures forall(j, 0, len(data), pbytes(self)[offset + j] == old(data[j]))
+//@   ensures all(j, (j < offset || j >= offset + len(data)) ==> pbytes(self)[j] == old(pbytes(self))[j])
+//@ end
+//@ func MappedPage.ReadBytes
+//@   requires pageOK(self) && offset >= 0 && length >= 0 && offset <= psize(self) - length
+//@   ensures len(result) == length && forall(j, 0, length, result[j] == pbytes(self)[offset + j])
+//@ end
+//@ func mappedPage.WriteBytes
+//@   prop C05
+//@   requires pageOK(mp) && offset >= 0 && offset <= len(mp.mappedBytes) - len(data)
+//@   modifies mp.mappedBytes[*]
+//@   ensures forall(j, 0, len(data), contents(mp.mappedBytes)[offset + j] == old(data[j]))
+//@   ensures all(j, (j < offset || j >= offset + len(data)) ==> contents(mp.mappedBytes)[j] == old(contents(mp.mappedBytes))[j])
+//@ end
+//@ func mappedPage.ReadBytes
+//@   prop C05
+//@   requires pageOK(mp) && offset >= 0 && length >= 0 && offset <= len(mp.mappedBytes) - length
+//@   ensures len(result) == length && forall(j, 0, length, result[j] == contents(mp.mappedBytes)[offset + j])
+//@ end
+
+//@ # ---- factory: map page id -> mapped page -------------------------------------------------------
+//@ predicate fhas(f Factory, id int64) bool = has(cast(f, "*factory").pages, id)
+//@ predicate fpage(f Factory, id int64) MappedPage = cast(f, "*factory").pages[id]
+//@ predicate fpsize(f Factory) int = cast(f, "*factory").pageSize
+//@ predicate factoryOK(f Factory) bool = f != nil && typeis(f, "*factory") && cast(f, "*factory").pages != nil && owns(f, cast(f, "*factory").pages) && all(id, "int64", fhas(f, id) ==> (pageOK(fpage(f, id)) && psize(fpage(f, id)) == fpsize(f)))
+
+//@ # content of a page file when it is first mapped: a function of (directory, page id)
+//@ uf page_disk(string, int64) map[int]byte
+//@ predicate fpath(f Factory) string = cast(f, "*factory").path
+//@ func Factory.AcquirePage
+//@   requires factoryOK(self)
+//@   modifies cast(self, "*factory").pages[*], cast(self, "*factory").size.val
+//@   ensures result1 == nil ==> (fhas(self, index) && fpage(self, index) == result0 && pageOK(result0) && psize(result0) == fpsize(self))
+//@   ensures (result1 == nil && old(fhas(self, index))) ==> result0 == old(fpage(self, index))
+//@   ensures (result1 == nil && !old(fhas(self, index))) ==> (fresh(result0) && pbytes(result0) == page_disk(fpath(self), index))
+//@   ensures all(id, "int64", id != index ==> (fhas(self, id) == old(fhas(self, id)) && fpage(self, id) == old(fpage(self, id))))
+//@   ensures result1 != nil ==> (fhas(self, index) == old(fhas(self, index)) && fpage(self, index) == old(fpage(self, index)))
+//@   ensures factoryOK(self)
+//@ end
+//@ func Factory.GetPage
+//@   requires factoryOK(self)
+//@   ensures result1 == fhas(self, index)
+//@   ensures result1 ==> (result0 == fpage(self, index) && pageOK(result0) && psize(result0) == fpsize(self))
+//@ end
+//@ func Factory.TruncatePages
+//@   requires factoryOK(self)
+//@   modifies cast(self, "*factory").pages[*], cast(self, "*factory").size.val
+//@   ensures all(id, "int64", id >= index ==> (fhas(self, id) == old(fhas(self, id)) && fpage(self, id) == old(fpage(self, id))))
+//@   ensures all(id, "int64", fhas(self, id) ==> (old(fhas(self, id)) && fpage(self, id) == old(fpage(self, id))))
+//@   ensures factoryOK(self)
+//@ end
+//@ func Factory.Close
+//@   modifies cast(self, "*factory").closed.val
+//@ end
